@@ -190,6 +190,86 @@ def check(cfg):
     return n, problems, f7
 
 
+def check_compact(cfg, take):
+    """The encoder's own use: make_sequence_header(cf) (take=1), or the first `take` headers of
+    iter_sequence_headers with the generator then abandoned.  Returns problems."""
+    from vc2_data_tables import BaseVideoFormats, ParseCodes
+    from vc2_conformance.pseudocode.video_parameters import set_source_defaults
+    from vc2_conformance.encoder.sequence_header import iter_sequence_headers, make_sequence_header
+    from vc2_conformance.bitstream import Stream, Sequence, DataUnit, ParseInfo, autofill_and_serialise_stream
+
+    b, var, pcm, level = cfg
+    vp = set_source_defaults(BaseVideoFormats(b))
+    per = perturbations(vp)
+    for i in var:
+        vp.update(per[i][1])
+    cf = encfeat.make_cf("c15", level=level, picture_coding_mode=pcm, vp=vp)
+    want = dict(vp)
+    try:
+        if take == 1:
+            hdrs = [make_sequence_header(cf)]
+        else:
+            it = iter_sequence_headers(cf)
+            hdrs = list(itertools.islice(it, take))
+            del it
+    except Exception as e:  # noqa
+        return ["make_sequence_header raised %s: %s" % (type(e).__name__, e)]
+    for k, hdr in enumerate(hdrs):
+        stream = Stream(sequences=[Sequence(data_units=[DataUnit(parse_info=ParseInfo(parse_code=ParseCodes.sequence_header), sequence_header=hdr), DataUnit(parse_info=ParseInfo(parse_code=ParseCodes.end_of_sequence))])])
+        f = io.BytesIO()
+        autofill_and_serialise_stream(f, stream)
+        v = vc2run.validate(f.getvalue(), limits=False, keep_pictures=False)
+        if v.kind != "accept":
+            return ["header #%d rejected: %s: %s" % (k, v.label, str(v.exc)[:140])]
+        got = dict(v.state["video_parameters"])
+        if got != want:
+            diff = {k2: (got.get(k2), want.get(k2)) for k2 in want if got.get(k2) != want.get(k2)}
+            return ["header #%d (base_video_format=%s) decodes to different parameters: %r" % (k, int(hdr["base_video_format"]), diff)]
+    return []
+
+
+def history_groups(tier):
+    """[(base, [perturbation indices of one field group] + unperturbed)]: the pools from which
+    ordered pairs of configurations are run one after the other in the same process."""
+    from vc2_data_tables import BaseVideoFormats
+    from vc2_conformance.pseudocode.video_parameters import set_source_defaults
+
+    out = []
+    for b in BaseVideoFormats:
+        per = perturbations(set_source_defaults(b))
+        groups = {}
+        for i, (g, ch) in enumerate(per):
+            groups.setdefault(g, []).append(i)
+        for g in sorted(groups):
+            if g in ("frame_rate", "pixel_aspect_ratio") and tier != "thorough":
+                idx = groups[g][::4]
+            else:
+                idx = groups[g]
+            out.append((int(b), g, [None] + idx))
+    return out
+
+
+def _shard_histories(arg):
+    tier, w, n = arg
+    t = Tally()
+    for b, g, pool_ in history_groups(tier)[w::n]:
+        for i in pool_:
+            for j in pool_:
+                if i == j:
+                    continue
+                hist = [(b, () if i is None else (i,), 0, 0), (b, () if j is None else (j,), 0, 0)]
+                for take in (1, 2):
+                    t.count("histories")
+                    for step, cfg in enumerate(hist):
+                        with vc2run.permissive_patterns():
+                            pr = check_compact(cfg, take)
+                        t.count("history_headers")
+                        if pr:
+                            t.violation("history %r (first %d header(s) taken, generator abandoned), step %d: %s" % (hist, take, step, pr[0]), {"history": hist, "take": take})
+                            break
+    return t
+
+
 def _shard(arg):
     tier, w, n = arg
     t = Tally()
@@ -212,6 +292,7 @@ def _shard(arg):
 def run(ctx):
     n = 64
     total = pool.map_shards(_shard, [(ctx.tier, w, n) for w in range(n)])
+    total.merge(pool.map_shards(_shard_histories, [(ctx.tier, w, n) for w in range(n)]))
     cfgs = all_configs(ctx.tier)
     if total.n["configs"] != len(cfgs):
         total.error("evaluated %d of %d" % (total.n["configs"], len(cfgs)))
@@ -222,12 +303,22 @@ def run(ctx):
         "distinct_nontrivial": total.ndistinct("ok"),
         "rule": "for each (base video format, perturbation, coding mode, level) every header yielded by iter_sequence_headers is serialised as 'SH, EOS', validated under the real level tables and its decoded parameters compared; evaluations = headers; non-trivial = distinct configurations with at least one header, all passing",
         "exhaustive": True,
-        "bounds": {"configs": len(cfgs), "perturbed_fields": 1 if ctx.quick else 2},
+        "bounds": {
+            "configs": len(cfgs),
+            "perturbed_fields": 1 if ctx.quick else 2,
+            "two_step_histories": "%d ordered pairs of configurations (same base format, same perturbed field group%s), each run twice in one process: via make_sequence_header, and via the first two headers of an abandoned iter_sequence_headers generator; every header validated and decoded" % (total.n["histories"] // 2, "; frame-rate and aspect-ratio groups subsampled 1 in 4" if ctx.quick else ""),
+        },
     }
     return total, cov
 
 
 def replay_case(case):
+    if "history" in case:
+        out = []
+        for c in case["history"]:
+            with vc2run.permissive_patterns():
+                out += check_compact((c[0], tuple(c[1]), c[2], c[3]), case["take"])
+        return out
     c = case["config"]
     with vc2run.permissive_patterns():
         return check((c[0], tuple(c[1]), c[2], c[3]))[1]
